@@ -792,13 +792,338 @@ fn long_text(rng: &mut Rng, nchars: usize) -> String {
     s
 }
 
+// ------------------------------------------------------------------------------------------------
+// the command-line tool (sudachi-cli/src/analysis.rs): sentence boundaries visible in its output
+// ------------------------------------------------------------------------------------------------
+use std::path::{Path, PathBuf};
+use std::process::Command;
+use sudachi::config::Config;
+use sudachi::dic::dictionary::JapaneseDictionary;
+
+/// a dictionary configuration the tool is run with
+struct CliDict {
+    name: String,
+    cfg: PathBuf,
+    res: PathBuf,
+    dict: JapaneseDictionary,
+    layers: Option<Lexicon>, // Some = generated in this run (replay rebuilds it)
+    pool: Vec<String>,       // surfaces to build lines from
+}
+
+/// the lexicon oracle restricted to one text: every dictionary word (system + user lexicons, as LexiconSet::lookup
+/// reports them) that occurs in the text.  On this text lookup_lex over these words equals the real lookup.
+fn words_in_text(dict: &JapaneseDictionary, text: &str) -> Vec<String> {
+    let mut v = vec![];
+    for (i, _) in text.char_indices() {
+        for e in dict.lexicon().lookup(text.as_bytes(), i) {
+            if let Some(w) = text.get(i..e.end) {
+                v.push(w.to_string());
+            }
+        }
+    }
+    v.sort();
+    v.dedup();
+    v
+}
+
+fn first_columns(csv: &str) -> Vec<String> {
+    let mut v = vec![];
+    for l in csv.lines() {
+        if l.starts_with('"') {
+            continue;
+        }
+        if let Some(w) = l.split(',').next() {
+            if !w.is_empty() && !w.contains('\\') {
+                v.push(w.to_string());
+            }
+        }
+    }
+    v
+}
+
+fn test_cli_dict() -> CliDict {
+    let res = PathBuf::from(format!("{}/python/tests/resources", repo()));
+    let cfg = res.join("sudachi.json");
+    let config = Config::new(Some(cfg.clone()), Some(res.clone()), None).expect("test configuration");
+    let dict = JapaneseDictionary::from_cfg(&config).expect("test dictionary");
+    let mut pool = vec![];
+    for f in ["lex.csv", "user1.csv", "user2.csv"] {
+        if let Ok(t) = std::fs::read_to_string(res.join(f)) {
+            pool.extend(first_columns(&t));
+        }
+    }
+    pool.sort();
+    pool.dedup();
+    CliDict { name: "test".into(), cfg, res, dict, layers: None, pool }
+}
+
+/// system + user dictionaries written to `dir`, with a configuration that needs no plugin objects
+fn generated_cli_dict(dir: &Path, layers: &Lexicon) -> CliDict {
+    std::fs::create_dir_all(dir).unwrap();
+    let res = PathBuf::from(format!("{}/python/tests/resources", repo()));
+    let bins = layers.compile();
+    let mut users = vec![];
+    for (k, b) in bins.iter().enumerate() {
+        let f = dir.join(if k == 0 { "system.dic".to_string() } else { format!("user{}.dic", k) });
+        std::fs::write(&f, b).unwrap();
+        if k > 0 {
+            users.push(f.to_string_lossy().to_string());
+        }
+    }
+    let cfgv = json!({
+        "systemDict": dir.join("system.dic").to_string_lossy(),
+        "userDict": users,
+        "characterDefinitionFile": "char.def",
+        "inputTextPlugin": [],
+        "oovProviderPlugin": [{"class": "com.worksap.nlp.sudachi.SimpleOovPlugin",
+                               "oovPOS": ["名詞", "普通名詞", "一般", "*", "*", "*"], "leftId": 0, "rightId": 0, "cost": 10000}],
+        "pathRewritePlugin": []
+    });
+    let cfg = dir.join("sudachi.json");
+    std::fs::write(&cfg, serde_json::to_string_pretty(&cfgv).unwrap()).unwrap();
+    let config = Config::new(Some(cfg.clone()), Some(res.clone()), None).expect("generated configuration");
+    let dict = JapaneseDictionary::from_cfg(&config).expect("generated dictionary");
+    CliDict { name: "generated".into(), cfg, res, dict, layers: Some(layers.clone()), pool: layers.flat() }
+}
+
+const CLI_PLAIN: [&str; 30] = [
+    "。", "？", "！", "…", "?", "!", ".", "．", "、", ",", "・・・", "<br><br>", "（", "）", "「", "」", "(", ")", "と", "っ", "です", "の", "あ", "京都", "に",
+    "行った", "1", "a", "　", "😀",
+];
+
+fn cli_line(rng: &mut Rng, pool: &[String], term_words: &[String]) -> String {
+    let n = rng.below(9) as usize;
+    let mut s = String::new();
+    for _ in 0..n {
+        match rng.below(10) {
+            0..=2 if !term_words.is_empty() => s.push_str(rng.pick(term_words).as_str()),
+            3..=5 if !pool.is_empty() => s.push_str(rng.pick(pool).as_str()),
+            _ => s.push_str(*rng.pick(&CLI_PLAIN)),
+        }
+    }
+    // the tool reads lines; blanks separate the surfaces of the -w output, tabs the columns of the default output
+    s.retain(|c| c != '\n' && c != '\r' && c != '\t' && c != ' ' && c != '\0');
+    s
+}
+
+fn file_bytes(rng: &mut Rng, lines: &[String]) -> Vec<u8> {
+    let mut f = String::new();
+    for (i, l) in lines.iter().enumerate() {
+        f.push_str(l);
+        if i + 1 < lines.len() || rng.chance(1, 2) {
+            f.push_str(if rng.chance(1, 4) { "\r\n" } else { "\n" });
+        }
+    }
+    f.into_bytes()
+}
+
+/// the sentences the tool shows: default output = first columns joined up to each EOS line; -w = one line per
+/// sentence, surfaces separated by blanks
+fn shown_sentences(stdout: &str, wakati: bool) -> Result<Vec<String>, String> {
+    let mut v = vec![];
+    if wakati {
+        for l in stdout.split_terminator('\n') {
+            v.push(l.replace(' ', ""));
+        }
+        return Ok(v);
+    }
+    let mut cur = String::new();
+    for l in stdout.split_terminator('\n') {
+        if l == "EOS" {
+            v.push(std::mem::take(&mut cur));
+        } else {
+            match l.split('\t').next() {
+                Some(sf) if l.contains('\t') => cur.push_str(sf),
+                _ => return Err(format!("output line {:?} is neither EOS nor a morpheme line", l)),
+            }
+        }
+    }
+    if !cur.is_empty() {
+        return Err("output ends inside a sentence (no final EOS)".into());
+    }
+    Ok(v)
+}
+
+fn run_tool(cli: &str, d: &CliDict, flags: &[String], file: &Path) -> Result<String, String> {
+    let o = Command::new(cli).arg("-r").arg(&d.cfg).arg("-p").arg(&d.res).args(flags).arg(file).output().map_err(|e| format!("cannot run {}: {}", cli, e))?;
+    if !o.status.success() {
+        return Err(format!("the tool exited with {:?}: {}", o.status.code(), String::from_utf8_lossy(&o.stderr).chars().take(300).collect::<String>()));
+    }
+    String::from_utf8(o.stdout).map_err(|_| "the tool's output is not UTF-8".to_string())
+}
+
+/// one run of the tool over a file; one case per input line
+fn cli_run(sink: &mut Sink, cli: &str, d: &CliDict, flags: &[&str], lines: &[String], file: &Path, verbose: bool) {
+    let flags: Vec<String> = flags.iter().map(|s| s.to_string()).collect();
+    let wakati = flags.iter().any(|f| f == "-w");
+    let only = flags.windows(2).any(|w| w[0] == "--split-sentences" && w[1] == "only");
+    let out = run_tool(cli, d, &flags, file);
+    if verbose {
+        println!("tool flags      : {:?}", flags);
+        println!("tool stdout     : {:?}", out);
+    }
+    let base = |line: &str| json!({"kind": "c16-cli", "dict": d.name, "layers": d.layers.as_ref().map(|l| l.layers.clone()), "flags": flags, "line": line});
+    if only {
+        // `only` writes the sentences back to back: the boundaries are not visible, the text must be
+        let id = sink.case_rust_only(json!({"kind": "c16-cli", "dict": d.name, "layers": d.layers.as_ref().map(|l| l.layers.clone()), "flags": flags, "lines": lines}), true);
+        sink.tag("cli_only_mode_file");
+        match out {
+            Ok(o) if o == lines.concat() => {}
+            Ok(o) => sink.fail(id, &format!("--split-sentences only printed {:?} for the lines {:?}", o, lines), ""),
+            Err(e) => sink.fail(id, &e, ""),
+        }
+        return;
+    }
+    let shown = match out.and_then(|o| shown_sentences(&o, wakati)) {
+        Ok(v) => v,
+        Err(e) => {
+            let id = sink.case_rust_only(json!({"kind": "c16-cli", "dict": d.name, "layers": d.layers.as_ref().map(|l| l.layers.clone()), "flags": flags, "lines": lines}), true);
+            sink.fail(id, &e, "");
+            return;
+        }
+    };
+    // attribute the shown sentences to the input lines: the sentences of a line concatenate to the line
+    let mut k = 0;
+    for line in lines {
+        let mut ranges: Option<Vec<(usize, usize)>> = Some(vec![]);
+        let mut pos = 0;
+        while pos < line.len() {
+            match shown.get(k) {
+                Some(s) if !s.is_empty() && line[pos..].starts_with(s.as_str()) => {
+                    ranges.as_mut().unwrap().push((pos, pos + s.len()));
+                    pos += s.len();
+                    k += 1;
+                }
+                _ => {
+                    ranges = None;
+                    break;
+                }
+            }
+        }
+        let chars: Vec<char> = line.chars().collect();
+        let lex = words_in_text(&d.dict, line);
+        let lexc: Vec<Vec<char>> = lex.iter().map(|w| w.chars().collect()).collect();
+        let want = oracle_split(&chars, 4096, Some(&lexc));
+        let lex_term = format!("(Some {})", clist(lexc.iter().map(|w| clist(w.iter().map(|c| cn(*c as u32))))));
+        let out_term = match &ranges {
+            Some(r) => format!("(Some {})", clist(r.iter().map(|&(b, e)| cpair(&cnu(b), &cnu(e))))),
+            None => "None".to_string(),
+        };
+        let term = format!("check_split {} {} {} {}", ctext(line), cnu(4096), lex_term, out_term);
+        let mut dsc = base(line);
+        dsc["lexicon"] = json!(lex);
+        let has_term = chars.iter().any(|&c| is_period(c) || is_dot(c));
+        let id = sink.case(term, dsc, has_term);
+        sink.tag(&format!("cli_{}_{}", d.name, if wakati { "wakati" } else { "default" }));
+        if lex.iter().any(|w| w.chars().count() > 1 && w.chars().any(|c| is_period(c) || is_dot(c))) {
+            sink.tag("cli_line_with_terminator_word");
+        }
+        if verbose {
+            println!("line            : {:?}", line);
+            println!("words in line   : {:?}", lex);
+            println!("tool sentences  : {:?}", ranges.as_ref().map(|r| r.iter().map(|&(b, e)| &line[b..e]).collect::<Vec<_>>()));
+            println!("model sentences : {:?}", want.iter().map(|&(b, e)| &line[b..e]).collect::<Vec<_>>());
+        }
+        match &ranges {
+            None => {
+                sink.fail(id, &format!("the sentences shown by the tool ({:?} ...) do not concatenate to the line {:?}", shown.get(k), line), "");
+                return; // attribution is lost for the rest of the file
+            }
+            Some(r) if *r != want => sink.fail(
+                id,
+                &format!(
+                    "tool {:?} on line {:?}: sentences {:?}, but the splitter with the dictionary as checker gives {:?}",
+                    flags,
+                    line,
+                    r.iter().map(|&(b, e)| &line[b..e]).collect::<Vec<_>>(),
+                    want.iter().map(|&(b, e)| &line[b..e]).collect::<Vec<_>>()
+                ),
+                "",
+            ),
+            _ => {}
+        }
+    }
+    if k != shown.len() {
+        let id = sink.case_rust_only(json!({"kind": "c16-cli", "dict": d.name, "layers": d.layers.as_ref().map(|l| l.layers.clone()), "flags": flags, "lines": lines}), true);
+        sink.fail(id, &format!("the tool showed {} sentences more than the lines account for", shown.len() - k), "");
+    }
+}
+
+fn cli_section(sink: &mut Sink, rng: &mut Rng, args: &Args) {
+    let cli = std::env::var("VERIF_CLI_BIN").unwrap_or_default();
+    if cli.is_empty() || !Path::new(&cli).exists() {
+        let id = sink.case_rust_only(json!({"kind": "c16-cli", "note": "VERIF_CLI_BIN not set: the command-line tool was not built"}), false);
+        sink.fail(id, "the command-line tool is not available (pre_build step py_cli did not run)", "");
+        return;
+    }
+    let dir = args.work.join("cli");
+    std::fs::create_dir_all(&dir).unwrap();
+    let nlines = args.n(36, 400);
+    // (a) the test configuration of the repository
+    let a = test_cli_dict();
+    let is_term_word = |w: &String| w.chars().count() > 1 && w.chars().any(|c| is_period(c) || is_dot(c));
+    let a_terms: Vec<String> = a.pool.iter().filter(|w| is_term_word(w)).cloned().collect();
+    // (b) a generated layered dictionary: words around the terminators of the generated lines
+    let mut seed_lines: Vec<String> = (0..nlines).map(|_| cli_line(rng, &[], &[])).collect();
+    let sample: Vec<char> = seed_lines.iter().take(12).flat_map(|l| l.chars()).collect();
+    let mut ws = gen_lexicon(rng, &sample);
+    ws.retain(|w| !w.contains(' ') && !w.contains('\t') && !w.contains('\r') && !w.contains('\0'));
+    let layers = gen_layers(rng, &sample, ws);
+    let b = generated_cli_dict(&dir.join("gen"), &layers);
+    let b_terms: Vec<String> = b.pool.iter().filter(|w| is_term_word(w)).cloned().collect();
+    let runs: [(&CliDict, &[String], &[&str]); 7] = [
+        (&a, &a_terms, &[]),
+        (&a, &a_terms, &["--split-sentences", "yes", "-w"]),
+        (&a, &a_terms, &["--split-sentences", "default", "-m", "A"]),
+        (&a, &a_terms, &["--split-sentences", "only"]),
+        (&b, &b_terms, &["--split-sentences", "yes"]),
+        (&b, &b_terms, &["--split-sentences", "default", "-w", "-m", "B"]),
+        (&b, &b_terms, &["--split-sentences", "only"]),
+    ];
+    for (k, (d, terms, flags)) in runs.iter().enumerate() {
+        let mut lines: Vec<String> = (0..nlines).map(|_| cli_line(rng, &d.pool, terms)).collect();
+        if d.layers.is_some() {
+            lines.extend(seed_lines.drain(..usize::min(12, seed_lines.len())));
+        }
+        lines.push(String::new());
+        let file = dir.join(format!("input{}.txt", k));
+        std::fs::write(&file, file_bytes(rng, &lines)).unwrap();
+        cli_run(sink, &cli, d, flags, &lines, &file, false);
+    }
+}
+
+fn cli_replay(sink: &mut Sink, c: &Value, args: &Args) {
+    let cli = std::env::var("VERIF_CLI_BIN").unwrap_or_default();
+    let dir = args.work.join("cli-replay");
+    std::fs::create_dir_all(&dir).unwrap();
+    let strs = |a: &Vec<Value>| -> Vec<String> { a.iter().map(|w| w.as_str().unwrap().to_string()).collect() };
+    let d = match c["layers"].as_array() {
+        Some(ls) => generated_cli_dict(&dir.join("gen"), &Lexicon { layers: ls.iter().map(|l| strs(l.as_array().unwrap())).collect() }),
+        None => test_cli_dict(),
+    };
+    let flags = c["flags"].as_array().map(strs).unwrap_or_default();
+    let flags: Vec<&str> = flags.iter().map(|s| s.as_str()).collect();
+    let lines: Vec<String> = match c["line"].as_str() {
+        Some(l) => vec![l.to_string()],
+        None => c["lines"].as_array().map(strs).unwrap_or_default(),
+    };
+    let file = dir.join("input.txt");
+    std::fs::write(&file, lines.join("\n") + "\n").unwrap();
+    cli_run(sink, &cli, &d, &flags, &lines, &file, true);
+}
+
 pub fn run(args: &Args) {
     let mut sink = Sink::new("C16", &args.out, &["Model.Sentence"], args.seed, &args.tier);
     sink.shard_size = 120;
-    sink.rule("texts over an alphabet of terminators, periods/full-width dots, middle dots, commas, <br>/<BR> tags and fragments, all bracket kinds, alphanumerics incl. kanji numerals, quoting particles, whitespace, 1-4 byte characters; directed shapes (itemisation headers, decimals, quotes, nesting) with one-piece perturbations; limits 1..8, 4096, |text|-1..|text|+1; without checker or with a checker over a system dictionary + 0..3 user dictionaries compiled in memory (one-character terminator entries, substrings of the text around terminators, long words; words containing a terminator and words with the same start are put into different lexicons, both directions, some words entered twice); non-trivial = the text contains a terminator candidate; distinct by generated Coq term");
+    sink.rule("texts over an alphabet of terminators, periods/full-width dots, middle dots, commas, <br>/<BR> tags and fragments, all bracket kinds, alphanumerics incl. kanji numerals, quoting particles, whitespace, 1-4 byte characters; directed shapes (itemisation headers, decimals, quotes, nesting) with one-piece perturbations; limits 1..8, 4096, |text|-1..|text|+1; without checker or with a checker over a system dictionary + 0..3 user dictionaries compiled in memory (one-character terminator entries, substrings of the text around terminators, long words; words containing a terminator and words with the same start are put into different lexicons, both directions, some words entered twice); command-line tool built from the working tree: multi-line files (dictionary words incl. those containing terminators, plain pieces, brackets, blank lines, CRLF) x {default, -w} x --split-sentences {yes, default, only} x modes over the repository's test configuration and over a generated system + user dictionary; the sentences visible in the output (EOS lines / wakati lines) must be the model's with the dictionary words of the line as lexicon oracle; non-trivial = the text contains a terminator candidate; distinct by generated Coq term");
     if let Some(p) = &args.replay {
         let v: Value = serde_json::from_str(&std::fs::read_to_string(p).unwrap()).unwrap();
         let c = &v["case"];
+        if c["kind"] == "c16-cli" {
+            cli_replay(&mut sink, c, args);
+            sink.finish();
+            return;
+        }
         if c["kind"] == "c16-big" {
             let nch = c["chars"].as_u64().unwrap() as usize;
             let limit = c["limit"].as_u64().unwrap() as usize;
@@ -844,6 +1169,8 @@ pub fn run(args: &Args) {
             sink.fail(id, &format!("{} x 'あ' + '。い' with window {}: expected ranges {:?}, got {:?} {}", nch, limit, want, out.ranges, out.note), "");
         }
     }
+    // the command-line tool: default / wakati output in the splitting modes, test and generated dictionaries
+    cli_section(&mut sink, &mut rng, args);
     let n = args.n(1300, 30000);
     let nlong = args.n(4, 40);
     let mut longs = 0;
